@@ -34,7 +34,8 @@ type vstate struct {
 	orphan  bool // the builder that mocked it was dropped (not reset)
 	real    bool // holds the real implementation (when not mocked)
 	saved   [2]uintptr
-	copied  bool // holds a copy of the mocked value of another variable (shares that activation's slots)
+	copied  bool // holds a copy of the mocked value of another variable (slots = what was mocked when the copy was taken)
+	src     *vstate // the variable the copy was taken from
 }
 
 func guard(f func()) (pv interface{}) {
@@ -131,6 +132,12 @@ func runHist(ci interface{}, s *vkit.Stats) error {
 		}
 		if ii.IsNil(v) {
 			return fmt.Errorf("%s: the variable was mocked but is nil", where)
+		}
+		if t.copied && t.src.slots[m.Tag] != t.slots[m.Tag] {
+			// the method was mocked (again) on the source after the copy was taken: whether the copy sees the newer replacement
+			// depends on whether goom extended the method table in place - the statement fixes neither, both are replacements
+			s.Exclude("copy-called-after-its-source-was-re-mocked")
+			return nil
 		}
 		sl := t.slots[m.Tag]
 		if sl == nil {
@@ -330,7 +337,11 @@ func runHist(ci interface{}, s *vkit.Stats) error {
 				continue
 			}
 			reflect.ValueOf(ii.Var(dst)).Elem().Set(reflect.ValueOf(ii.Var(v)).Elem())
-			vs[dst] = &vstate{slots: t.slots, mocked: true, copied: true, builder: -1}
+			snap := map[int]*slot{}
+			for k, sl := range t.slots {
+				snap[k] = sl
+			}
+			vs[dst] = &vstate{slots: snap, mocked: true, copied: true, builder: -1, src: t}
 			s.Class("mocked-value-copied-to-another-variable")
 			fp = append(fp, fmt.Sprintf("cp%d>%d", v, dst))
 			nontrivial = true
@@ -365,7 +376,7 @@ func runHist(ci interface{}, s *vkit.Stats) error {
 					// copies of this activation's value held by other variables: the statement promises nothing about them once
 					// the mock was reset; they are put back to nil and no longer judged
 					for cv, ct := range vs {
-						if ct.copied && ct.mocked && reflect.ValueOf(ct.slots).Pointer() == reflect.ValueOf(tt.slots).Pointer() {
+						if ct.copied && ct.mocked && ct.src == tt {
 							ii.SetNil(cv)
 							vs[cv] = &vstate{slots: map[int]*slot{}}
 							s.Class("copy-retired-when-its-source-was-reset")
